@@ -199,7 +199,12 @@ def _apply_fault_to_data(case, rec, pids):
     idx = lo + (f.get("offset", 0) % max(1, hi - lo)) if n else 0
     if kind == "nonfinite":
         col = f["column"]
-        if col in rec and n:
+        if col == "pid":
+            # a patch-index column of floating-point type with one non-finite entry
+            if pids is not None and n:
+                pids = pids.astype("f8").copy()
+                pids[idx] = dict(nan=np.nan, inf=np.inf, ninf=-np.inf)[f["value"]]
+        elif col in rec and n:
             rec = dict(rec)
             arr = rec[col].astype("f8").copy()
             arr[idx] = dict(nan=np.nan, inf=np.inf, ninf=-np.inf)[f["value"]]
